@@ -45,7 +45,11 @@ def eval (S : Statics) (M : Methods) : Nat → AST → Env → R Val
             match cv with
             | .sclos [_] _ _ _ _ => applyS S M n cv [.str "<error>"]
             | _ => pure cv
-        | .panic => .panic
+        | .panic => do
+            let cv ← eval S M n c env
+            match cv with
+            | .sclos [_] _ _ _ _ => applyS S M n cv [.str "<error>"]
+            | _ => pure cv
         | .fuel => .fuel
         | .unmodelled => .unmodelled
     | .unary op a => do let x ← eval S M n a env; unop op x
